@@ -19,7 +19,7 @@ use crate::util::*;
 pub const PROP: Prop = Prop {
     id: "C06",
     level: "fault_enumeration",
-    rule: "inputs from printed values (several dialects), mutations of them, token-alphabet sequences and arbitrary bytes (<= 200 bytes quick, 2 KiB thorough) x sampled parser option sets (all 1536 reachable) x API (single-shot value, single-shot datum, iterated); the stream is an instrumented io::Read with chunk schedules {1 byte, generated cycle, whole}, optional BufReader of capacity {1,2,3,7,8192}, Interrupted injected by a generated pattern (including before the first read), and a hard error injected at EVERY offset 0..=len of every input with each of four error kinds; oracle: same outcome from str (valid UTF-8 only), slice and stream; a fault at or before the highest offset the fault-free run requested must give an I/O-category error carrying the injected payload, a later fault must change nothing; non-trivial = at least 2 tokens and (a fault strictly inside the input, or >= 2 chunks, or an Interrupted); distinct by digest of (input, options, schedule)",
+    rule: "inputs from printed values (several dialects), mutations of them, token-alphabet sequences and arbitrary bytes (<= 200 bytes quick, 2 KiB thorough) x sampled parser option sets (all 1536 reachable) x API (single-shot value, single-shot datum, iterated); the stream is an instrumented io::Read with chunk schedules {1 byte, generated cycle, whole}, optional BufReader of capacity {1,2,3,7,8192}, Interrupted injected by a generated pattern (including before the first read), and a hard error injected at EVERY offset 0..=len of every input with each of four error kinds; oracle: same outcome from str (valid UTF-8 only), slice and stream, and for the iterated APIs the same whole history of items and errors when the caller goes on after an error; a fault at or before the highest offset the fault-free run requested must give an I/O-category error carrying the injected payload, a later fault must change nothing; non-trivial = at least 2 tokens and (a fault strictly inside the input, or >= 2 chunks, or an Interrupted); distinct by digest of (input, options, schedule)",
     assumptions: &[
         "error outcomes are compared by category and message text without the location suffix (locations are C11/C19's subject)",
         "the parser is deterministic, so the set of offsets it requests in the fault-free run determines which faults it must hit",
@@ -338,6 +338,43 @@ pub fn check_case(c: &Case, label: &str) -> CaseResult {
                 format!("equiv pair=stream/slice {}", diff_kind(&base.outcome, &slice)),
                 format!("stream (chunks {:?}, interrupts {:?}, bufcap {}) gives {} but slice gives {}", c.chunks, c.interrupts, c.bufcap, short(&base.outcome), short(&slice)),
             ));
+        }
+        // an iterating caller goes on after an error: the whole history of
+        // items and errors is the same from every source kind
+        if matches!(c.api, Api::Iter | Api::IterDatum) {
+            let datum = c.api == Api::IterDatum;
+            fn history<'de, R: lexpr::parse::Read<'de>>(mut p: Parser<R>, datum: bool, cap: usize) -> Vec<Result<MV, (String, String)>> {
+                let mut out = Vec::new();
+                for _ in 0..cap {
+                    let r = if datum { p.next_datum().map(|o| o.map(|d| MV::from_value(d.value()))) } else { p.next_value().map(|o| o.map(|v| MV::from_value(&v))) };
+                    match r {
+                        Ok(Some(m)) => out.push(Ok(m)),
+                        Ok(None) => break,
+                        Err(e) => out.push(Err(err_pair(&e))),
+                    }
+                }
+                out
+            }
+            let from_slice = history(Parser::from_slice_custom(&c.input, q.to_lexpr()), datum, cap);
+            let from_stream = history(Parser::from_reader_custom(FaultyRead::new(&c.input, &c.chunks, &c.interrupts, None), q.to_lexpr()), datum, cap);
+            let first_diff = |a: &Vec<Result<MV, (String, String)>>, b: &Vec<Result<MV, (String, String)>>| a.iter().zip(b.iter()).position(|(x, y)| x != y).unwrap_or(a.len().min(b.len()));
+            if from_stream != from_slice {
+                let i = first_diff(&from_stream, &from_slice);
+                return Err((
+                    "equiv pair=stream/slice history-after-error".into(),
+                    format!("iterating past errors: call {} gives {} from the stream but {} from the slice ({} vs {} calls in all)", i, short(&from_stream.get(i)), short(&from_slice.get(i)), from_stream.len(), from_slice.len()),
+                ));
+            }
+            if let Ok(st) = std::str::from_utf8(&c.input) {
+                let from_str = history(Parser::from_str_custom(st, q.to_lexpr()), datum, cap);
+                if from_str != from_slice {
+                    let i = first_diff(&from_str, &from_slice);
+                    return Err((
+                        "equiv pair=str/slice history-after-error".into(),
+                        format!("iterating past errors: call {} gives {} from the str but {} from the slice", i, short(&from_str.get(i)), short(&from_slice.get(i))),
+                    ));
+                }
+            }
         }
         // the unbuffered one-byte run defines `need`
         let plain = Case { chunks: vec![0], interrupts: vec![], bufcap: 0, ..c.clone() };
